@@ -1977,7 +1977,7 @@ func genTimed(rng *rand.Rand, name string) *Plan {
 // surface scenarios (C17): live context, then direct invocations of every exported method by every role
 func genSurface(rng *rand.Rand, name string, surf []lockstep.MethodInfo, frac int, part int) *Plan {
 	// "CHAINA" differs from "chainA" only in letter case: its admin is the "admin of another chain"
-	p := &Plan{Name: name, Seed: 1, Proof: "serial", Chains: []string{"chainA", "chainB", "CHAINA"}, NSvc: 1, Black: map[string]string{}, Audit: rng.Intn(2) == 0, FreeGas: true}
+	p := &Plan{Name: name, Seed: 1, Proof: "serial", Chains: []string{"chainA", "chainB", "CHAINA"}, NSvc: 1, Black: map[string]string{}, Audit: rng.Intn(2) == 0, FreeGas: true, Roles: true}
 	// live context: an accepted request (BEGIN), a finished one, an open proposal
 	p.Steps = append(p.Steps, Step{Step: "block", Txs: []Tx{{K: "ibtp", Src: "chainA:svc1", Dst: "chainB:svc1", Idx: 1, Typ: "REQ", T: 0, From: "u1"}}})
 	p.Steps = append(p.Steps, Step{Step: "block", Txs: []Tx{{K: "ibtp", Src: "chainA:svc1", Dst: "chainB:svc1", Idx: 1, Typ: "OK", From: "u2"}}})
@@ -1992,6 +1992,11 @@ func genSurface(rng *rand.Rand, name string, surf []lockstep.MethodInfo, frac in
 	p.Steps = append(p.Steps, Step{Step: "submit", M: "FreezeRole", By: "@admin0", Obj: "x", Args: []string{"@admin3", "r"}})
 	for i := 0; i < 3; i++ {
 		p.Steps = append(p.Steps, Step{Step: "vote", Pid: 1, By: fmt.Sprintf("@admin%d", i), Ballot: "approve"})
+	}
+	// an audit admin bound to that node: an admin, but none of those the privileged operations are reserved to
+	p.Steps = append(p.Steps, Step{Step: "submit", M: "RegisterRole", By: "@admin0", Obj: "x", Args: []string{"@aud1", "auditAdmin", "@nvp1", "r"}})
+	for i := 0; i < 3; i++ {
+		p.Steps = append(p.Steps, Step{Step: "vote", Pid: 2, By: fmt.Sprintf("@admin%d", i), Ballot: "approve"})
 	}
 	p.Steps = append(p.Steps, Step{Step: "open", M: "FreezeService", Obj: "chainB:svc1"})
 	strs := []string{"chainA", "chainB", "chainA:svc1", "chainB:svc1", "svc:chainA:svc1", "svc:chainB:svc1", "svc:chainA:svc1-1356:chainB:svc1-2",
@@ -2022,7 +2027,7 @@ func genSurface(rng *rand.Rand, name string, surf []lockstep.MethodInfo, frac in
 		}
 		return "", false // not constructible through the transaction encoding
 	}
-	roles := []struct{ role, acct string }{{"outsider", "u3"}, {"otheradmin", "admin-CHAINA"}, {"otheradmin", "admin-chainB"}, {"govadmin", "@admin1"}, {"nodeacct", "nvp1"}, {"frozenadmin", "@admin3"}}
+	roles := []struct{ role, acct string }{{"outsider", "u3"}, {"otheradmin", "admin-CHAINA"}, {"otheradmin", "admin-chainB"}, {"govadmin", "@admin1"}, {"nodeacct", "nvp1"}, {"frozenadmin", "@admin3"}, {"auditadmin", "aud1"}}
 
 	var calls []Tx
 	combo := 0
